@@ -78,6 +78,7 @@ type Frame struct {
 	Entry  *State // entry state (for old())
 	Params map[string]*Val
 	ParamAlias map[string]string // contract-header parameter name -> source parameter name (top-level frames)
+	sharedArr  map[*ssa.Alloc]*Term  // backing arrays of array variables sliced inside a loop they are declared outside of
 	deferredAt map[int][]*Obligation // at-call clauses matched inside inlined helpers (used when the function itself has no call site)
 	// loop bookkeeping
 	loops      map[*ssa.BasicBlock]*loopInfo
@@ -867,6 +868,18 @@ func (fr *Frame) step(st *State, ins ssa.Instruction, b *ssa.BasicBlock, edgeSt 
 		return st // handled at block entry
 	case *ssa.Alloc:
 		elem := x.Type().(*types.Pointer).Elem()
+		if at, isArr := under(elem).(*types.Array); isArr && loopSharedArray(x) && kindOf(at.Elem()) == KInt {
+			// backing array for the slices taken of this variable inside a loop (see sliceOp)
+			id := st.Alloc
+			st.Alloc = Add(st.Alloc, Num(1))
+			key := heapKey("S:"+tstr(at.Elem()), "")
+			srt := SArr(SInt, SArr(SInt, sortOf(at.Elem())))
+			st.heapSet(key, Store(st.heapGet(key, srt), id, ConstArr(srt.Elem, zeroTerm(sortOf(at.Elem())))))
+			if fr.sharedArr == nil {
+				fr.sharedArr = map[*ssa.Alloc]*Term{}
+			}
+			fr.sharedArr[x] = id
+		}
 		if !x.Heap {
 			st.Cells[x] = zeroVal(elem)
 			fr.Regs[x] = &Val{K: KPtr, T: x.Type(), Cell: x, Frame: fr}
@@ -879,6 +892,14 @@ func (fr *Frame) step(st *State, ins ssa.Instruction, b *ssa.BasicBlock, edgeSt 
 		v := fr.val(st, x.Val)
 		fr.checkNil(st, p, "store", x.Pos())
 		fr.store(st, p, x.Val.Type(), v)
+		if al, ok := x.Addr.(*ssa.Alloc); ok && fr.sharedArr != nil {
+			if id, shared := fr.sharedArr[al]; shared && v.K == KArr {
+				at := under(al.Type().(*types.Pointer).Elem()).(*types.Array)
+				key := heapKey("S:"+tstr(at.Elem()), "")
+				srt := SArr(SInt, SArr(SInt, sortOf(at.Elem())))
+				st.heapSet(key, Store(st.heapGet(key, srt), id, v.X))
+			}
+		}
 		return st
 	case *ssa.UnOp:
 		fr.Regs[x] = fr.unop(st, x)
@@ -1644,6 +1665,17 @@ func (fr *Frame) sliceOp(st *State, x *ssa.Slice) *Val {
 			return &Val{K: KSlice, T: x.Type(), X: base.X, Off: lo, Len: Sub(hi, lo), Cap: Sub(mx, lo)}
 		}
 		// slice of an array that lives inside a struct or a local cell: read-only copy into a fresh backing array
+		if al, ok := x.X.(*ssa.Alloc); ok && loopSharedArray(al) {
+			// ... which would be wrong for a variable declared outside a loop, re-assigned in it and sliced in it (a range
+			// variable under the module's Go version < 1.22): every slice taken in the loop is a window onto the one array.
+			// Such a variable has a backing array of its own (allocated with the variable, kept in step by every store to it).
+			if id, ok := fr.sharedArr[al]; ok {
+				wholeBytes(Select(st.heapGet(heapKey("S:"+tstr(arr.Elem()), ""), SArr(SInt, SArr(SInt, sortOf(arr.Elem())))), id))
+				c.note("%s: the array variable %q is declared outside a loop and sliced inside it: its slices share one backing array", fr.Fn, al.Comment)
+				return &Val{K: KSlice, T: x.Type(), X: id, Off: lo, Len: Sub(hi, lo), Cap: Sub(mx, lo)}
+			}
+			unsup("slice of the loop-shared array variable %q without a backing array", al.Comment)
+		}
 		av := fr.load(st, base, bt.Elem())
 		s := fr.makeSlice(st, x.Type(), Sub(hi, lo), Sub(mx, lo))
 		key := heapKey("S:"+tstr(arr.Elem()), "")
@@ -1966,4 +1998,80 @@ func (fr *Frame) loopWritesMap(b *ssa.BasicBlock, root string) bool {
 		}
 	}
 	return false
+}
+
+// loopSharedArray: an array-typed local that is declared outside some loop, assigned inside it and sliced inside it.
+var loopSharedCache = map[*ssa.Alloc]bool{}
+
+func loopSharedArray(al *ssa.Alloc) bool {
+	if r, ok := loopSharedCache[al]; ok {
+		return r
+	}
+	res := false
+	if _, isArr := under(al.Type().(*types.Pointer).Elem()).(*types.Array); isArr && al.Referrers() != nil {
+		for _, body := range naturalLoops(al.Parent()) {
+			if body[al.Block()] {
+				continue
+			}
+			sliced, stored := false, false
+			for _, r := range *al.Referrers() {
+				switch x := r.(type) {
+				case *ssa.Slice:
+					if x.X == al && body[x.Block()] {
+						sliced = true
+					}
+				case *ssa.Store:
+					if x.Addr == al && body[x.Block()] {
+						stored = true
+					}
+				}
+			}
+			if sliced && stored {
+				res = true
+			}
+		}
+	}
+	loopSharedCache[al] = res
+	return res
+}
+
+var naturalLoopCache = map[*ssa.Function][]map[*ssa.BasicBlock]bool{}
+
+func naturalLoops(fn *ssa.Function) []map[*ssa.BasicBlock]bool {
+	if r, ok := naturalLoopCache[fn]; ok {
+		return r
+	}
+	bodies := map[*ssa.BasicBlock]map[*ssa.BasicBlock]bool{}
+	for _, b := range fn.Blocks {
+		for _, s := range b.Succs {
+			if s.Dominates(b) {
+				body := bodies[s]
+				if body == nil {
+					body = map[*ssa.BasicBlock]bool{s: true}
+					bodies[s] = body
+				}
+				var stack []*ssa.BasicBlock
+				if !body[b] {
+					body[b] = true
+					stack = append(stack, b)
+				}
+				for len(stack) > 0 {
+					n := stack[len(stack)-1]
+					stack = stack[:len(stack)-1]
+					for _, p := range n.Preds {
+						if !body[p] {
+							body[p] = true
+							stack = append(stack, p)
+						}
+					}
+				}
+			}
+		}
+	}
+	var out []map[*ssa.BasicBlock]bool
+	for _, b := range bodies {
+		out = append(out, b)
+	}
+	naturalLoopCache[fn] = out
+	return out
 }
